@@ -583,3 +583,16 @@ def structural_eq(P, key, adt):
         if not answers or any(a != all(asg) for a in answers):
             return False, f"with fields equal = {val} it answers {answers}"
     return True, "evaluated over all field-equality combinations"
+
+
+def unaudited_overrides(P, types):
+    """Iterator / DoubleEndedIterator / ExactSizeIterator methods that the given iterator types override in the current tree but did not in the
+    pinned tree (table pinned_names.json): every audited rule about `next`, `size_hint`, `nth`, ... says nothing about a new `last`, `fold`,
+    `count`, `min`, ... that replaces the provided method (which is defined through `next`)."""
+    import json, os, re
+    tb = os.path.join(os.path.dirname(os.path.dirname(os.path.abspath(__file__))), "pinned_names.json")
+    pinned = set(json.load(open(tb)).get("fns", {})) if os.path.exists(tb) else None
+    if pinned is None:
+        return ["pinned_names.json missing"]
+    rx = re.compile(r"^<(" + "|".join(re.escape(t_) for t_ in types) + r") as core::iter::traits::(iterator::Iterator|double_ended::DoubleEndedIterator|exact_size::ExactSizeIterator)>::(\w+)$")
+    return sorted(k for k in P.fns if rx.match(k) and k not in pinned)
